@@ -58,11 +58,12 @@ int32_t psRsaParseAsnPubKey(psPool_t *pool,
     {
         goto L_FAIL;
     }
-    if (*p++ != 0)
+    if (keylen < 1)
     {
+        /* No room for the unused-bits octet read next. */
         goto L_FAIL;
     }
-    if (keylen < 1)
+    if (*p++ != 0)
     {
         goto L_FAIL;
     }
@@ -77,16 +78,20 @@ int32_t psRsaParseAsnPubKey(psPool_t *pool,
     psSha1Final(&dc.u.sha1, sha1KeyHash);
 # endif
 
-    if (getAsnSequence(&p, keylen, &seqlen) < 0)
+    /* keylen counted the unused-bits octet, which has been consumed */
+    if (getAsnSequence(&p, keylen - 1, &seqlen) < 0)
     {
         goto L_FAIL;
     }
 
     end = p + seqlen;
-    if (pstm_read_asn(pool, &p, (uint16_t) (end - p), &key->N) < 0 ||
-        pstm_read_asn(pool, &p, (uint16_t) (end - p), &key->e) < 0)
+    if (pstm_read_asn(pool, &p, (uint16_t) (end - p), &key->N) < 0)
     {
-
+        goto L_FAIL;
+    }
+    if (pstm_read_asn(pool, &p, (uint16_t) (end - p), &key->e) < 0)
+    {
+        pstm_clear(&key->N); /* was left allocated */
         goto L_FAIL;
     }
     key->size = pstm_unsigned_bin_size(&key->N);
